@@ -249,6 +249,16 @@ where
         Ok(())
     }
 
+    /// Waits for a dispatch of the worker thread that serves vring `index`, if one is under way.
+    fn wait_for_dispatch(&self, index: u8) {
+        for (thread_index, queues_mask) in self.queues_per_thread.iter().enumerate() {
+            if (queues_mask >> index) & 1u64 == 1u64 {
+                self.handlers[thread_index].wait_for_dispatch();
+                break;
+            }
+        }
+    }
+
     /// Helper to check if VirtioFeature enabled
     fn check_feature(&self, feat: VhostUserVirtioFeatures) -> VhostUserResult<()> {
         if self.acked_features & feat.bits() != 0 {
@@ -307,6 +317,10 @@ where
             self.update_vring_registration(vring, index as u8)?;
             #[cfg(feature = "verif-hooks")]
             vhost::verif::point("ctl.reset.epoll_updated");
+        }
+        // No event handler may run for a disabled vring once the request has been answered.
+        for handler in self.handlers.iter() {
+            handler.wait_for_dispatch();
         }
 
         // Reset device state, retain protocol state
@@ -489,6 +503,9 @@ where
         self.update_vring_registration(vring, index as u8)?;
         #[cfg(feature = "verif-hooks")]
         vhost::verif::point("ctl.stop.epoll_updated");
+        // The vring is stopped once this request is answered: let a dispatch that is under way
+        // finish first, so that the index reported below is final as well.
+        self.wait_for_dispatch(index as u8);
 
         let next_avail = vring.queue_next_avail();
 
@@ -599,6 +616,10 @@ where
         self.update_vring_registration(vring, index as u8)?;
         #[cfg(feature = "verif-hooks")]
         vhost::verif::point("ctl.enable.epoll_updated");
+        if !enable {
+            // No event handler may run for the vring once the request has been answered.
+            self.wait_for_dispatch(index as u8);
+        }
 
         Ok(())
     }
